@@ -291,8 +291,8 @@ static void scenThread(int variant)
 static void scenDeadline(int variant)
 {
   static const long long nsecs[] = {0, 999000000LL, 999999999LL};
-  static const long long timeouts[] = {0, 1, 999, 1000, 1001, 2500};
-  int kind = variant / 18, ni = (variant / 6) % 3, ti = variant % 6;
+  static const long long timeouts[] = {0, 1, 999, 1000, 1001, 2500, 4294967, 4294968, 4295000};   // the last three: around 2^32 microseconds
+  int kind = variant / 27, ni = (variant / 9) % 3, ti = variant % 9;
   vf_set_clock_ns(1700000000LL * 1000000000LL + nsecs[ni]);
   long long timeout = timeouts[ti], start = vf_now_ns();
   bool ok;
@@ -305,7 +305,7 @@ static void scenDeadline(int variant)
 }
 
 struct Scen { const char* name; void (*fn)(int); int variants; };
-static const Scen SCEN[] = {{"mutex", scenMutex, 6}, {"semaphore", scenSemaphore, 4}, {"signal", scenSignal, 5}, {"monitor", scenMonitor, 6}, {"thread", scenThread, 4}, {"deadline", scenDeadline, 54}};
+static const Scen SCEN[] = {{"mutex", scenMutex, 6}, {"semaphore", scenSemaphore, 4}, {"signal", scenSignal, 5}, {"monitor", scenMonitor, 6}, {"thread", scenThread, 4}, {"deadline", scenDeadline, 81}};
 extern "C" int vf_scenario_count(void) { return (int)(sizeof(SCEN) / sizeof(*SCEN)); }
 extern "C" const char* vf_scenario_name(int id) { return SCEN[id].name; }
 extern "C" int vf_scenario_variants(int id) { return SCEN[id].variants; }
